@@ -349,3 +349,57 @@ def decide(types, sigs):
         if not dominated:
             minimal.append(i)
     return matching, minimal
+
+
+# ---------------------------------------------------------------------------
+# the precise type of a value, computed from the value alone
+
+
+def typeof(v):
+    """Description of the most precise type of v; None where there is no single answer (a frozenset whose elements
+    have different precise types)."""
+    if isinstance(v, tuple) and type(v) is tuple:
+        if not v:
+            return ("tuple*",)
+        parts = [typeof(x) for x in v]
+        if any(p is None for p in parts):
+            return None
+        return ("tuple", tuple(parts))
+    if isinstance(v, frozenset) and type(v) is frozenset:
+        if not v:
+            return ("fset*",)
+        parts = [typeof(x) for x in v]
+        if any(p is None for p in parts) or any(p != parts[0] for p in parts):
+            return None
+        return ("fset", parts[0])
+    vals = ast_values(v)
+    if vals is not None and _is_param_meta(type(v)):
+        parts = [typeof(x) for x in vals]
+        if any(p is None for p in parts):
+            return None
+        return ("gen", _origin_class(v), tuple(parts))
+    return ("cls", type(v))
+
+
+def to_typing(d):
+    """A typing / class object denoting description d, built with the standard library only."""
+    k = d[0]
+    if k == "any":
+        return typing.Any
+    if k == "cls":
+        return d[1]
+    if k == "union":
+        return typing.Union[tuple(to_typing(x) for x in d[1])]
+    if k == "tuple*":
+        return tuple
+    if k == "tuple":
+        return typing.Tuple[tuple(to_typing(x) for x in d[1])]
+    if k == "vtuple":
+        return typing.Tuple[to_typing(d[1]), ...]
+    if k == "fset*":
+        return frozenset
+    if k == "fset":
+        return typing.FrozenSet[to_typing(d[1])]
+    if k == "gen":
+        return d[1] if d[2] is None else d[1][tuple(to_typing(x) for x in d[2])]
+    raise ValueError(d)
